@@ -62,3 +62,80 @@ package connlist
 //@     assert [C13,C18] scanfailed: len(errs) > 0
 //@   before call 6:
 //@     assert [C13,C18] scanfailed2: len(errs) > 0
+
+// ---------------------------------------------------------------------------------------------
+// Formatters (C09): the IP connections that the txt/md/csv/json formatters re-list in the exposure section are
+// rebuilt from the connections of the call - nothing survives from an earlier call on the same formatter
+// ---------------------------------------------------------------------------------------------
+
+//@ pred p2pOK(c Peer2PeerConnection) = dyntype(c, *connection) && unwrap(c, *connection) != nil
+//@     && clPeerOK(unwrap(c, *connection).src) && clPeerOK(unwrap(c, *connection).dst)
+//@ fun p2pSrc(c Peer2PeerConnection) Peer = unwrap(c, *connection).src
+//@ fun p2pDst(c Peer2PeerConnection) Peer = unwrap(c, *connection).dst
+// the entry carries the printed end points of connection c
+//@ fun scfOf(e singleConnFields, c Peer2PeerConnection) bool = e.Src == clStr(p2pSrc(c)) && e.Dst == clStr(p2pDst(c))
+
+//@ func createIPMaps
+//@   ensures [C09] made: initMapsFlag ==> (ipMaps.peerToConnsToIPs != nil && fresh(ipMaps.peerToConnsToIPs) && ipMaps.PeerToConnsFromIPs != nil && fresh(ipMaps.PeerToConnsFromIPs)
+//@         && ipMaps.peerToConnsToIPs != ipMaps.PeerToConnsFromIPs
+//@         && (forall k string :: {k in ipMaps.peerToConnsToIPs} !(k in ipMaps.peerToConnsToIPs)) && (forall k string :: {k in ipMaps.PeerToConnsFromIPs} !(k in ipMaps.PeerToConnsFromIPs)))
+//@   ensures [C09] none: !initMapsFlag ==> (ipMaps.peerToConnsToIPs == nil && ipMaps.PeerToConnsFromIPs == nil)
+
+// every element of the two maps afterwards is an element that was there, or stems from conn (filed under the other end's name)
+//@ func (*ipMaps).saveConnsWithIPs
+//@   requires i != nil && i.PeerToConnsFromIPs != nil && i.peerToConnsToIPs != nil && i.PeerToConnsFromIPs != i.peerToConnsToIPs && p2pOK(conn)
+//@   modifies *
+//@   ensures [C09] ptrs: i.PeerToConnsFromIPs == old(i.PeerToConnsFromIPs) && i.peerToConnsToIPs == old(i.peerToConnsToIPs)
+//@   ensures [C09] from: forall k string, j int :: {i.PeerToConnsFromIPs[k][j]} (k in i.PeerToConnsFromIPs && 0 <= j && j < len(i.PeerToConnsFromIPs[k])) ==>
+//@         ((old(k in i.PeerToConnsFromIPs) && j < old(len(i.PeerToConnsFromIPs[k])) && i.PeerToConnsFromIPs[k][j] == old(i.PeerToConnsFromIPs[k][j]))
+//@          || (clIsIP(p2pSrc(conn)) && k == clStr(p2pDst(conn)) && scfOf(i.PeerToConnsFromIPs[k][j], conn)))
+//@   ensures [C09] to: forall k string, j int :: {i.peerToConnsToIPs[k][j]} (k in i.peerToConnsToIPs && 0 <= j && j < len(i.peerToConnsToIPs[k])) ==>
+//@         ((old(k in i.peerToConnsToIPs) && j < old(len(i.peerToConnsToIPs[k])) && i.peerToConnsToIPs[k][j] == old(i.peerToConnsToIPs[k][j]))
+//@          || (clIsIP(p2pDst(conn)) && k == clStr(p2pSrc(conn)) && scfOf(i.peerToConnsToIPs[k][j], conn)))
+//@   ensures [C09] added: (clIsIP(p2pSrc(conn)) ==> (clStr(p2pDst(conn)) in i.PeerToConnsFromIPs && len(i.PeerToConnsFromIPs[clStr(p2pDst(conn))]) > 0))
+//@         && (clIsIP(p2pDst(conn)) ==> (clStr(p2pSrc(conn)) in i.peerToConnsToIPs && len(i.peerToConnsToIPs[clStr(p2pSrc(conn))]) > 0))
+
+//@ pred connsOK(conns []Peer2PeerConnection) = forall i int :: {conns[i]} (0 <= i && i < len(conns)) ==> p2pOK(conns[i])
+// every element of m stems from one of the first n connections, filed under the name of its non-IP end
+//@ pred fromFirst(m map[string][]singleConnFields, conns []Peer2PeerConnection, n int) = forall k string, j int :: {m[k][j]} (k in m && 0 <= j && j < len(m[k])) ==>
+//@     (exists i int :: {conns[i]} 0 <= i && i < n && clIsIP(p2pSrc(conns[i])) && k == clStr(p2pDst(conns[i])) && scfOf(m[k][j], conns[i]))
+//@ pred toFirst(m map[string][]singleConnFields, conns []Peer2PeerConnection, n int) = forall k string, j int :: {m[k][j]} (k in m && 0 <= j && j < len(m[k])) ==>
+//@     (exists i int :: {conns[i]} 0 <= i && i < n && clIsIP(p2pDst(conns[i])) && k == clStr(p2pSrc(conns[i])) && scfOf(m[k][j], conns[i]))
+// the two maps were allocated during this call and hold connections of this call only
+//@ pred ipMapsOfCall(im ipMaps, conns []Peer2PeerConnection) = im.PeerToConnsFromIPs != nil && fresh(im.PeerToConnsFromIPs) && im.peerToConnsToIPs != nil && fresh(im.peerToConnsToIPs)
+//@     && fromFirst(im.PeerToConnsFromIPs, conns, len(conns)) && toFirst(im.peerToConnsToIPs, conns, len(conns))
+
+//@ func getConnlistAsSortedSingleConnFieldsArray
+//@   requires connsOK(conns) && (saveToIPMaps ==> (ipMaps.PeerToConnsFromIPs != nil && ipMaps.peerToConnsToIPs != nil && ipMaps.PeerToConnsFromIPs != ipMaps.peerToConnsToIPs
+//@         && fromFirst(ipMaps.PeerToConnsFromIPs, conns, 0) && toFirst(ipMaps.peerToConnsToIPs, conns, 0)))
+//@   modifies *
+//@   ensures [C09] maps: saveToIPMaps ==> (fromFirst(ipMaps.PeerToConnsFromIPs, conns, len(conns)) && toFirst(ipMaps.peerToConnsToIPs, conns, len(conns)))
+//@   loop 1:
+//@     invariant len: len(connItems) == len(conns)
+//@     invariant maps: saveToIPMaps ==> (fromFirst(ipMaps.PeerToConnsFromIPs, conns, rangeindex + 1) && toFirst(ipMaps.peerToConnsToIPs, conns, rangeindex + 1))
+
+//@ func (*formatText).writeConnlistOutput
+//@   requires t != nil && connsOK(conns)
+//@   modifies *
+//@   ensures [C09] reset: saveIPConns ==> ipMapsOfCall(t.ipMaps, conns)
+//@   ensures [C09] none: !saveIPConns ==> (t.ipMaps.PeerToConnsFromIPs == nil && t.ipMaps.peerToConnsToIPs == nil)
+//@   loop 1:
+//@     invariant len: len(connLines) == len(conns)
+//@     invariant maps: saveIPConns ==> (t.ipMaps.PeerToConnsFromIPs != nil && fresh(t.ipMaps.PeerToConnsFromIPs) && t.ipMaps.peerToConnsToIPs != nil && fresh(t.ipMaps.peerToConnsToIPs)
+//@         && t.ipMaps.PeerToConnsFromIPs != t.ipMaps.peerToConnsToIPs
+//@         && fromFirst(t.ipMaps.PeerToConnsFromIPs, conns, rangeindex + 1) && toFirst(t.ipMaps.peerToConnsToIPs, conns, rangeindex + 1))
+//@     invariant none: !saveIPConns ==> (t.ipMaps.PeerToConnsFromIPs == nil && t.ipMaps.peerToConnsToIPs == nil)
+
+// the other formatters build the maps through the shared helper
+//@ func (*formatJSON).writeOutput
+//@   requires j != nil && connsOK(conns)
+//@   modifies *
+//@   ensures [C09] reset: (err == nil && exposureFlag) ==> ipMapsOfCall(j.ipMaps, conns)
+//@ func (*formatCSV).writeCsvConnlistTable
+//@   requires cs != nil && connsOK(conns)
+//@   modifies *
+//@   ensures [C09] reset: (res == nil && saveIPConns) ==> ipMapsOfCall(cs.ipMaps, conns)
+//@ func (*formatMD).writeMdConnlistLines
+//@   requires md != nil && connsOK(conns)
+//@   modifies *
+//@   ensures [C09] reset: saveIPConns ==> ipMapsOfCall(md.ipMaps, conns)
